@@ -334,7 +334,9 @@ func (t *Terminal) clearLineToRight() {
 	t.queue(op)
 }
 
-const maxLineLength = 4096
+// a pasted multi-row INSERT easily has tens of kilobytes: characters beyond the
+// limit are dropped silently, statement terminator included
+const maxLineLength = 1 << 20
 
 func (t *Terminal) setLine(newLine []rune, newPos int) {
 	if t.echo {
